@@ -686,7 +686,8 @@ def rule_bit_ctor_domain(run):
     prims = {"isinstance": isinst, "Integer": _IntegerM, "true": t_, "false": f_, "BitState": _BS, "Bit": _Bit, "_Boolean": _Bool, "_NullFullType": _NF,
              "Null": _NF(), "Full": _NF(), "bool": bool, "int": int, "str": str, "type": type}
     samples = [("None", None, "UNINITIALZED")]
-    for v in range(-2, 4):
+    lo, hi = run.bound((-2, 4), (-9, 18))
+    for v in range(lo, hi):
         exp = {0: "LOW", 1: "HIGH"}.get(v)
         samples.append((f"int {v}", v, exp))
         samples.append((f"Integer({v})", _IntegerM(v), exp))
